@@ -35,6 +35,7 @@ const (
 const (
 	mLive = "live" // S-th stream that is definitely live (handler ran, nothing ended it)
 	mSent = "sent" // the stream of the S-th request sent so far
+	mDone = "done" // S-th stream whose handler was told to finish (trailers possibly still queued behind flow control); fallback: sent
 	mIdle = "idle" // odd id above everything used so far
 	mEven = "even"
 	mZero = "zero"
